@@ -1,15 +1,19 @@
 SPECIFICATION Spec
 CONSTANTS
   NPix = {0, 1, 9, 10, 20}
-  Chunks = {1, 2, 9, 10, 100}
+  Chunks = {1, 9, 10, 100}
   Shapes <- MC_Shapes_quick
   RegSize <- MC_RegSize
+  ByteOrders <- MC_BO_big
+  Prev <- MC_Prev_none
+  MaxGen = 1
   Bug = "none"
 INVARIANT TypeOK
 INVARIANT HeaderFirst
 INVARIANT Sequential
 INVARIANT BlockAtDeclaredPosition
 INVARIANT Tiling
+INVARIANT NothingSurvives
 INVARIANT EachBlockOnce
 INVARIANT CanonicalOrder
 INVARIANT PixBytes
